@@ -546,9 +546,9 @@ func exprMentions(e jExpr, name string) bool {
 // ---------- abstract values ----------
 
 type jObj struct {
-	Kind    string                             // model kind: terminal, mode, grammar, prod, rule, term, method
-	GoType  string                             // "pkgsuffix.TypeName" used to validate field names against the repo's types
-	Fields  map[string]any                     // field values
+	Kind    string         // model kind: terminal, mode, grammar, prod, rule, term, method
+	GoType  string         // "pkgsuffix.TypeName" used to validate field names against the repo's types
+	Fields  map[string]any // field values
 	Methods map[string]func(args []any) (any, error)
 	Tag     any
 }
